@@ -685,6 +685,28 @@ def check_c11(rng, n, thorough=False):
     res = result()
     for i in range(n):
         spec = simgen.gen_spec(rng, small=True)
+        if i % 3 == 1:
+            # several observations leaving the telescope in the same step: at the pause point right after it the
+            # telescope is idle while the buffer still holds observations the scheduler has not taken yet
+            nobs = rng.randint(2, 3)
+            d = rng.randint(1, 3)
+            t0 = rng.choice([0, 0, 0, 2])
+            nobs = 3 if t0 else nobs
+            base = spec["observations"][0]
+            spec["observations"] = [dict(base, name="abc"[j], start=t0, duration=d, demand=1, ingest_demand=1,
+                                         rate=max(1, min(base["rate"], 3)),
+                                         workflow=simgen.gen_workflow(rng, 3, [m["flops"] for m in spec["machines"]]))
+                                    for j in range(nobs)]
+            while len(spec["machines"]) < nobs:
+                spec["machines"].append({"id": "mx%d" % len(spec["machines"]), "flops": 10, "bw": 2})
+            spec["total_arrays"] = max(spec["total_arrays"], nobs)
+            spec["max_ingest"] = nobs
+            tot = sum(o["rate"] * o["duration"] for o in spec["observations"])
+            spec["hot"]["capacity"] = int(tot / 0.6) + 5
+            spec["hot"]["rate"] = max(spec["hot"]["rate"], 3)
+            spec["cold"]["capacity"] = spec["hot"]["capacity"] + 5
+            if spec["scheduling"]["kind"] == "batch":
+                spec["scheduling"] = {"kind": "batch", "partitions": 1, "min": 1, "split": None}
         full0 = runsim.run_spec(spec, max_steps=300)
         if full0["exception"] or full0["nonterminated"]:
             continue
@@ -693,6 +715,12 @@ def check_c11(rng, n, thorough=False):
             continue
         full = runsim.run_spec(spec, until=T)
         ks = list(range(1, T)) if (thorough or T <= 12) else sorted(rng.sample(range(1, T), 10))
+        # always pause around the moments observations leave the telescope
+        for o in spec["observations"]:
+            for k_ in (o["start"] + o["duration"], o["start"] + o["duration"] + 1, o["start"] + o["duration"] + 2):
+                if 1 <= k_ < T and k_ not in ks and len(ks) < 16:
+                    ks.append(k_)
+        ks = sorted(set(ks))
         for k in ks:
             segs = []
             cur = k
